@@ -46,11 +46,13 @@ EVIDENCE = {
         level_text=("For every AVP kind and enumerated size a symbolic *specified value* is turned into the crate value it denotes, encoded by the "
                     "real encoder and decoded by the real record walker; the solver decides decode(encode(a)) = a (field-wise against the "
                     "specification and by the crate's own PartialEq) for all field values. Control messages with 0 and 1 AVP (all 14 message "
-                    "types) round-trip through the real message codec; AVP pairs/triples through the record walker."),
+                    "types) round-trip through the real message codec; AVP pairs/triples through the record walker. Result Code with an error type / message text: "
+                    "the decode half is decided for every payload of 2-7 (8) octets (the specified octets of a value decode to that value, dec_1_*); a counterexample is "
+                    "reported only if the native twin's full round trip through the real encoder returns a different AVP."),
         level_note=COMMON_NOTE + " Control messages with 2+ AVPs through the real control codec in one query are out of reach (DESIGN.md §2 P11/P21); they are covered record-wise (sequences) plus the 0/1-AVP message harnesses.",
         functions_encoded=LEAF_FUNCS + ["Message::write", "ControlMessage::write", "ControlMessage::try_read", "Message::try_read_validate"], stubs=[STUB_UTF8],
-        bounds="38 kinds x sizes {fixed L; 4 (1,9) octets byte strings; 4 (1,6) strings; Q.931 3,7 (4)}; Result Code via c16_* (code, error type); control messages with 0/1 AVP; sequences of 2-3 AVPs",
-        outside_claim=["control messages with 2+ AVPs in one query", "AVPs of 256+ octets through encode then decode (arrays beyond CBMC field sensitivity; the 10-bit length split is decided under C07)", "Result Code with a message text on the encode side (the enum dispatch of that niche-carrying kind needs > 30 GB)", "hidden AVPs are covered under C11"],
+        bounds="38 kinds x sizes {fixed L; 4 (1,9) octets byte strings; 4 (1,6) strings; Q.931 3,7 (4)}; Result Code via c16_* (code, error type) and dec_1_2..7 (8) (decode half, message text <= 3 (4) octets); control messages with 0/1 AVP; sequences of 2-3 AVPs",
+        outside_claim=["control messages with 2+ AVPs in one query", "AVPs of 256+ octets through encode then decode (arrays beyond CBMC field sensitivity; the 10-bit length split is decided under C07)", "Result Code with a message text: the encoder half is not in the solver's query (the enum dispatch of that niche-carrying kind needs > 30 GB); it runs natively on the solver's counterexamples only", "hidden AVPs are covered under C11"],
         assumptions=["from_spec (kani/src/kinds.rs) builds the value the specification denotes — itself checked by same() in each harness"]),
     "C04": dict(
         level_text=("Data messages of every enumerated shape (payload 1,2,5,8 octets; Ns/Nr present or not; Length absent or the true total; "
@@ -98,9 +100,12 @@ EVIDENCE = {
     "C10": dict(
         level_text=("For every AVP kind and every accepted payload of the enumerated lengths (all octets symbolic, so non-canonical inputs with "
                     "surplus octets and non-zero reserved octets are included): decode, re-encode, decode, re-encode — same value, same octets, never "
-                    "longer. Message level: zero-AVP control messages directly; one-AVP messages by decode = specified value and encode(value) = specified octets."),
+                    "longer. Message level: zero-AVP control messages directly; one-AVP messages by decode = specified value and encode(value) = specified octets. "
+                    "Data messages without an offset field: every value the decoder can return at the enumerated shapes (Length absent or the true total — "
+                    "C05 ties every accepted octet string to such a value; ids, Ns/Nr, payload symbolic) is encoded, decoded strictly (same value field for field) "
+                    "and the decoded value encoded again: same octets (data_rt_*_on)."),
         level_note=COMMON_NOTE + " Decoded values live in a heap Vec whose shape is not constant in symbolic execution; the second round therefore runs on a local value shown (field-wise) to denote the same specified value.",
-        functions_encoded=LEAF_FUNCS + ["ControlMessage::try_read/write"], stubs=[STUB_UTF8], bounds="as C05 leaf lengths", outside_claim=["messages with 2+ AVPs", "data messages (covered by C04 round trip only)", "Result Code (no re-encode harness)"], assumptions=[]),
+        functions_encoded=LEAF_FUNCS + ["ControlMessage::try_read/write", "DataMessage::try_read/write", "Message::try_read_validate"], stubs=[STUB_UTF8], bounds="as C05 leaf lengths; data messages: payload 1,2,5 (8) octets x Ns/Nr present/absent x Length present/absent, no offset", outside_claim=["messages with 2+ AVPs", "data messages: the step from an accepted non-canonical octet string (reserved bits, trailing octets) to its decoded value is the C05 message harness, composed by argument", "Result Code (no re-encode harness)"], assumptions=[]),
     "C11": dict(
         level_text=("hide then reveal with the hash an uninterpreted function: for representative kinds, secret lengths 0/1/3/16, one to three "
                     "blocks (aligned and unaligned), all value / secret / random-vector / padding octets symbolic, the solver decides "
